@@ -457,3 +457,83 @@ func statusBeforeToleranceRule(c *Ctx, pr *PropertyRun, prop string) {
 	}
 	r.RequireRole("tolerated-decode")
 }
+
+// typedNilRule: a function result of a concrete pointer type that implements
+// error (*HTTPError), converted to the interface type error, is a NON-nil
+// error even when the pointer is nil. Unless the producing function returns a
+// non-nil pointer on every path, `var err error = f()` turns success into a
+// failure whose fields are then read through a nil pointer.
+func typedNilRule(c *Ctx, pr *PropertyRun, prop string) {
+	p := c.P
+	r := NewRule(prop, prop+".typed-nil", "a pointer-typed result converted to the interface type error comes from a function that returns a non-nil pointer on every path (a nil *HTTPError in an error variable is a non-nil error) (E4)")
+	pr.Rules = append(pr.Rules, r)
+	var nonNilFn func(fn *ssa.Function, idx int, depth int) bool
+	nonNilVal := func(v ssa.Value, depth int) bool {
+		for i := 0; i < 4; i++ {
+			switch x := v.(type) {
+			case *ssa.Alloc:
+				return true
+			case *ssa.ChangeType:
+				v = x.X
+				continue
+			case *ssa.Call:
+				if callee := x.Common().StaticCallee(); callee != nil && inLib(callee) {
+					return nonNilFn(callee, 0, depth+1)
+				}
+				return false
+			case *ssa.Extract:
+				if call, ok := x.Tuple.(*ssa.Call); ok {
+					if callee := call.Common().StaticCallee(); callee != nil && inLib(callee) {
+						return nonNilFn(callee, x.Index, depth+1)
+					}
+				}
+				return false
+			}
+			return false
+		}
+		return false
+	}
+	nonNilFn = func(fn *ssa.Function, idx int, depth int) bool {
+		if depth > 3 || len(fn.Blocks) == 0 {
+			return false
+		}
+		n := 0
+		for _, b := range fn.Blocks {
+			ret, ok := b.Instrs[len(b.Instrs)-1].(*ssa.Return)
+			if !ok || idx >= len(ret.Results) {
+				continue
+			}
+			n++
+			if !nonNilVal(ret.Results[idx], depth) {
+				return false
+			}
+		}
+		return n > 0
+	}
+	for _, fn := range p.ModFns {
+		if !inLib(fn) || len(fn.Blocks) == 0 {
+			continue
+		}
+		eachInstr(fn, func(_ *ssa.BasicBlock, in ssa.Instruction) {
+			mi, ok := in.(*ssa.MakeInterface)
+			if !ok || !isErrorType(mi.Type()) {
+				return
+			}
+			if _, isPtr := mi.X.Type().Underlying().(*types.Pointer); !isPtr {
+				return
+			}
+			switch mi.X.(type) {
+			case *ssa.Call, *ssa.Extract:
+			default:
+				return // a literal, a local: decided where it is made
+			}
+			r.Role("pointer-result-as-error")
+			ok = nonNilVal(mi.X, 0)
+			r.Ob(ok)
+			if !ok {
+				r.Violation("typed-nil|"+fnKey(fn), p.instrPos(mi), fmt.Sprintf("%s converts a pointer-typed function result (%s) to the interface type error, and the function can return a nil pointer: the error is then non-nil although nothing failed, and reading its fields dereferences nil", fnKey(fn), mi.X.Type().String()), nil)
+			}
+		})
+	}
+	r.RequireRole("pointer-result-as-error")
+}
